@@ -165,3 +165,66 @@ func genC01(rec *lib.Rec, r *lib.Rng, thorough bool) {
 		rec.Op("M", "read walk "+strconv.FormatUint(T, 10)+" "+strconv.FormatUint(D, 10)+" "+segsStr(segs), total >= 16)
 	}
 }
+
+// cyclicMessages: pointer graphs with cycles and sharing, for the depth / traversal limits.
+func cyclicMessages() []string {
+	w := func(xs ...uint64) string {
+		b := make([]byte, 8*len(xs))
+		for i, x := range xs {
+			binary.LittleEndian.PutUint64(b[8*i:], x)
+		}
+		return lib.Hex(b)
+	}
+	sp := func(off int32, dw, pc uint64) uint64 { return uint64(uint32(off)<<2) | dw<<32 | pc<<48 }
+	lp := func(off int32, ek, n uint64) uint64 { return 1 | uint64(uint32(off)<<2) | ek<<32 | n<<35 }
+	return []string{
+		w(sp(0, 0, 1), sp(-1, 0, 1)),                            // struct whose pointer 0 is itself
+		w(sp(0, 0, 2), sp(-1, 0, 2), sp(-2, 0, 2)),              // both pointers back to the struct: 2^d paths
+		w(lp(0, 6, 1), lp(-1, 6, 1)),                            // pointer list containing itself
+		w(lp(0, 6, 2), lp(-1, 6, 2), lp(-2, 6, 2)),              // pointer list, two self references
+		w(lp(0, 7, 2), sp(1, 0, 2), lp(-2, 7, 2), lp(-3, 7, 2)), // composite list, elements point to the list
+		w(lp(0, 7, 1), sp(1, 0, 1), lp(-2, 7, 1)),               // composite list of one element pointing to the list
+		w(sp(0, 1, 1), 0x1122334455667788, lp(-3, 6, 1)),        // struct -> pointer list that is the root slot
+		w(lp(0, 7, 0), sp(4, 0, 0)),                             // 4 zero-sized composite elements
+		w(lp(0, 0, 1<<29-1)),                                    // void list of maximal length
+		w(lp(0, 7, 0), sp(1<<29-1, 0, 0)),                       // zero-sized composite elements, maximal count
+	}
+}
+
+func genC02(rec *lib.Rec, r *lib.Rng, thorough bool) {
+	if Shard == 0 {
+		for _, m := range cyclicMessages() {
+			for _, T := range []string{"8", "16", "64", "800", "4096", "65536", "67108864", "4294967296", "1099511627776"} {
+				for D := 1; D <= 66; D++ {
+					if D > 6 && D < 62 && !thorough {
+						continue
+					}
+					rec.Op("M", "read walk "+T+" "+strconv.Itoa(D)+" "+m, true)
+					rec.Count("cyclic")
+				}
+			}
+		}
+	}
+	n := 3000
+	if thorough {
+		n = 200000
+	}
+	n /= Shards
+	for i := 0; i < n; i++ {
+		segs, kind := genMessage(r)
+		rec.Count(kind)
+		T, D := genLimits(r)
+		total := 0
+		for _, s := range segs {
+			total += len(s)
+		}
+		rec.Op("M", "read walk "+strconv.FormatUint(T, 10)+" "+strconv.FormatUint(D, 10)+" "+segsStr(segs), total >= 16)
+		if i%10 == 0 {
+			b := 6
+			segs := Encode(r, genStruct(r, 2, &b, 1, 2), 1, 0, 0, false)
+			rec.Op("S", "read conc "+strconv.Itoa(r.Pick(64, 100, 1000, 4096, 100000))+" "+strconv.Itoa(r.Pick(2, 4, 8, 16))+" "+
+				strconv.Itoa(r.Pick(10, 100, 1000))+" "+segsStr(segs), true)
+			rec.Count("concurrent")
+		}
+	}
+}
